@@ -3,7 +3,7 @@ import QV.Proofs.CompilerReplay
 import QV.Proofs.CompilerBennett
 import QV.Model.CompilerClass
 /-!
-# Cleanliness of the compiler model on the tree-like fragment without De Morgan `Or`
+# Cleanliness of the compiler model on the tree-like fragment
 
 `CompilerSem.lean` proves what the result qubit holds.  This file proves the *shape* of the emitted
 gate list that makes the inline `uncompute` a correct Bennett replay (`replay_clean`):
@@ -13,12 +13,17 @@ gate list that makes the inline `uncompute` a correct Bennett replay (`replay_cl
 * no gate targets an argument qubit,
 * every target is a marked qubit or the result qubit,
 
-for every expression of the fragment in which every `Or` has at most two arguments (`smallOr`; the De
-Morgan branch of `compile_or` flips argument qubits and breaks the second point).  The shape is a
-two-state relation `Cl` with *pending* controls / targets (qubits a later step of the caller still has
-to mark), one lemma per primitive, one per `compile_*` branch (`exprCl_*`), tied by the same mutual
-structural recursion as `exprSem`.  The semantic facts needed on the way (cache misses, fresh
-ancillas, `Pre` at intermediate states) are taken from `exprSem` / `argsSem` / `xorSem`.
+for every expression of the fragment (`overInputs`, `treeLike`).  The repaired `compile_or` folds
+binary ors into new marked ancillas for more than two distinct argument qubits (`orChain_cl`,
+`orWide_cl`) and applies no `X` gate to an argument qubit, so the former restriction to `Or`s with at
+most two arguments (`smallOr`) is gone.  The shape is a two-state relation `Cl` with *pending* controls /
+targets (qubits a later step of the caller still has to mark), one lemma per primitive, one per
+`compile_*` branch (`exprCl_*`), tied by the same mutual structural recursion as `exprSem`.  `Cl` also
+says that `kept_ancillas` does not change: `mark_ancilla` ignores kept ancillas, so "an ancilla gets
+marked" holds from states with `kept = []` (the hypothesis `s.qc.kept = []` of the specifications; the
+single statement of the fragment starts from such a state).  The semantic facts needed on the way
+(cache misses, fresh ancillas, `Pre` at intermediate states) are taken from `exprSem` / `argsSem` /
+`xorSem`.
 -/
 namespace QV.Compiler
 open QV
@@ -574,23 +579,6 @@ theorem exprCl_and {inputs : List String} {ρ : Env} {σ0 : FState} {r : String}
     dsimp only at h2
     obtain ⟨d, s3, hf, h4⟩ := run_bind_ok.mp h2
     exact body hf h4
-
-theorem length_eraseDups_le (k : Nat) : ∀ l : List Nat, l.length ≤ k → l.eraseDups.length ≤ l.length := by
-  induction k with
-  | zero =>
-    intro l hl
-    have : l = [] := List.length_eq_zero_iff.mp (by omega)
-    subst this; simp
-  | succ k ih =>
-    intro l hl
-    cases l with
-    | nil => simp
-    | cons a as =>
-      rw [List.eraseDups_cons]
-      simp only [List.length_cons] at hl ⊢
-      have h1 := List.length_filter_le (fun b => !b == a) as
-      have := ih (as.filter (fun b => !b == a)) (by omega)
-      omega
 
 theorem cxAll_cl {n d : Nat} : ∀ (es : List Nat) {u : Unit} {s s' : CState},
     (cxAll d es).run s = .ok (u, s') → n ≤ d → Cl n (· ∈ es) (· = d) s s'
